@@ -125,15 +125,31 @@ def build_list(game, name, rows, labels=None):
     "gappy"   the DataFrame is given a gappy index (3, 5, 8, ...)
     "after"   built with one extra earlier row that is then removed with .after()  -> labels 1..n
     "mask"    built with extra rows (front and middle) that are removed with a boolean mask -> labels with holes
-    "rev"     labels n-1..0 (as a reverse sort of a reversed construction leaves them)"""
+    "rev"     labels n-1..0 (as a reverse sort of a reversed construction leaves them)
+    "perm"    labels rotated (1, 2, ..., n-1, 0): a permutation of 0..n-1 that is not in row order
+    "sorted"  the rows as given (possibly not in time order) passed through the public .sorted(): rows in time order,
+              labels permuted
+    "int"     default labels, offset (and length) stored in integer-typed columns (the values must be whole numbers)"""
     t = game_table()[game]
     cls, item = (t["lists"].get(name) or t["extra"][name])
     rows = [_row_kwargs(game, name, r) for r in rows]
     if not rows:
         return cls([])
-    if labels in (None, "gappy", "rev"):
+    if labels == "sorted":
+        return cls([item(**r) for r in rows]).sorted()
+    if labels in (None, "gappy", "rev", "perm", "int"):
         lst = cls([item(**r) for r in rows])
-        if labels == "gappy":
+        if labels == "perm":
+            df = lst.df.copy()
+            df.index = [(i + 1) % len(df) for i in range(len(df))]
+            lst = cls(df)
+        elif labels == "int":
+            df = lst.df.copy()
+            for c in ("offset", "length"):
+                if c in df.columns:
+                    df[c] = df[c].astype("int64")
+            lst = cls(df)
+        elif labels == "gappy":
             df = lst.df.copy()
             df.index = gappy_labels(len(df))
             lst = cls(df)
@@ -428,7 +444,14 @@ def _val(v):
     """JSON-able op value -> python value"""
     if isinstance(v, dict) and "bytes" in v:
         return v["bytes"].encode("ascii")
+    if isinstance(v, dict) and "np" in v:  # numpy scalar of the named type, e.g. {"np": "float64", "v": 2.5}
+        return getattr(np, v["np"])(v["v"])
     return v
+
+
+def _plain(v):
+    """the python number an op value stands for (the oracle computes on plain numbers)"""
+    return v.item() if isinstance(v, np.generic) else v
 
 
 class _Model:
@@ -441,7 +464,8 @@ class _Model:
             self.lists[name] = dict(
                 type=type(lst).__name__,
                 stacked=name in m.objs,
-                kinds={k for k, c in kc.items() if isinstance(lst, c)},
+                # "list:<name>" stands for the exact class of the chart's list <name> (e.g. OsuSvList, SMMineList)
+                kinds={k for k, c in kc.items() if isinstance(lst, c)} | {"list:" + n2 for n2, l2 in m.objs.items() if isinstance(lst, type(l2))},
                 cols=[str(c) for c in lst.df.columns],
                 data={str(c): [x.item() if isinstance(x, np.generic) else x for x in lst.df[c].tolist()] for c in lst.df.columns},
                 n=len(lst.df),
@@ -495,6 +519,10 @@ class _Model:
             return old + v
         if how == "imul":
             return old * v
+        if how == "isub":
+            return old - v
+        if how == "idiv":
+            return old / v
         raise ValueError(how)
 
     def whole(self, how, col, v):
@@ -613,7 +641,7 @@ def _do_stack(m, include):
     if include is None:
         return m.stack()
     kc = _kind_classes()
-    return m.stack(tuple(kc[k] for k in include))
+    return m.stack(tuple(type(m.objs[k[5:]]) if k.startswith("list:") else kc[k] for k in include))
 
 
 def _mask_value(model, mspec, s, form):
@@ -634,7 +662,7 @@ def _mask_value(model, mspec, s, form):
 def _apply_real(s, model, op):
     """run one op on the real stacker; returns 'skip' when the op is not applicable to this stack"""
     kind = op[0]
-    if kind in ("iadd", "imul", "set", "self"):
+    if kind in ("iadd", "imul", "isub", "idiv", "set", "self"):
         col = op[1]
         if not model.has_col(col):
             return "skip"
@@ -650,9 +678,15 @@ def _apply_real(s, model, op):
         elif kind == "imul":
             cur *= v
             setattr(s, col, cur)
+        elif kind == "isub":
+            cur -= v
+            setattr(s, col, cur)
+        elif kind == "idiv":
+            cur /= v
+            setattr(s, col, cur)
         else:
             setattr(s, col, v)
-        model.whole(kind, col, v)
+        model.whole(kind, col, _plain(v))
         return "ok"
     if kind == "loc":
         _, how, mspec, cols, v = op[:5]
@@ -676,21 +710,25 @@ def _apply_real(s, model, op):
             s.loc[mk, cols] = v
         elif how == "iadd":
             s.loc[mk, cols] += v
+        elif how == "isub":
+            s.loc[mk, cols] -= v
+        elif how == "idiv":
+            s.loc[mk, cols] /= v
         else:
             s.loc[mk, cols] *= v
-        model.loc(how, flat, cl, v)
+        model.loc(how, flat, cl, _plain(v))
         return "ok"
     raise ValueError(op)
 
 
-def _run_chart_case(case, check_from=0):
-    """case: dict(spec=chart spec, ops=[op...]) ; returns [(what, detail)]"""
-    m = _fresh(case["spec"])
+def _run_ops(m, ops, check_from=0, s=None):
+    """the ops of a chart case on the chart m (through the stacker s, default a new m.stack()); returns [(what, detail)]"""
     model = _Model(m)
     fields0 = _fields_of(m)
-    s = m.stack()
+    if s is None:
+        s = m.stack()
     out = []
-    for k, op in enumerate(case["ops"]):
+    for k, op in enumerate(ops):
         if op[0] == "restack":
             inc = op[1] if len(op) > 1 else None
             model.include = inc
@@ -715,6 +753,26 @@ def _run_chart_case(case, check_from=0):
     return out
 
 
+def _run_chart_case(case, check_from=0):
+    """case: dict(spec=chart spec, ops=[op...], twin=bool) ; returns [(what, detail)].
+    twin: a second, equal chart (its own objects) and a stacker of it are alive while the ops run on the first chart;
+    the second chart must be left as it was (`other_chart_untouched`), and the same ops through ITS stacker afterwards
+    must again equal the per-list oracle (the ordinary clauses; nothing of the first run may leak into the second)."""
+    m = _fresh(case["spec"])
+    if not case.get("twin"):
+        return _run_ops(m, case["ops"], check_from)
+    m2 = _fresh(case["spec"])
+    s2 = m2.stack()
+    before = snapshot(m2)
+    out = _run_ops(m, case["ops"], check_from)
+    if out:
+        return out
+    d = diff(before, snapshot(m2))
+    if d:
+        return [("other_chart_untouched", "a second chart (own objects, equal content) changed while the first one was edited through its stack: " + "; ".join(d[:3]))]
+    return [(wh, "second chart, stacked before the first one was edited: " + dd) for wh, dd in _run_ops(m2, case["ops"], check_from, s=s2)]
+
+
 # ---------------------------------------------------------------------------------------------------------------- op alphabets
 def _alphabet(game, nrows, full):
     """ops for a chart with `nrows` stacked rows.  full=True: the complete alphabet used for length-1 sequences,
@@ -724,8 +782,18 @@ def _alphabet(game, nrows, full):
     if full:
         for c in whole_cols + ["metronome"]:
             ops += [["iadd", c, 5], ["imul", c, 2], ["iadd", c, 0.5], ["self", c]]
+        for c in whole_cols:  # the other two in-place arithmetic operators
+            ops += [["isub", c, 5], ["idiv", c, 2]]
+        # plain assignment of one value to a whole stacked property
+        ops += [["set", "offset", 250.0], ["set", "column", 2], ["set", "length", 0], ["set", "bpm", {"np": "float64", "v": 90.5}]]
+        # numpy scalars instead of python numbers as the assigned value
+        ops += [["iadd", "offset", {"np": "float64", "v": 2.5}], ["imul", "column", {"np": "int64", "v": 2}], ["isub", "length", {"np": "float32", "v": 1.5}],
+                ["loc", "set", {"cond": ["offset", ">", 400.0]}, "offset", {"np": "float32", "v": 1.5}], ["loc", "isub", {"cond": ["offset", ">", 400.0]}, "offset", 7.0],
+                ["loc", "idiv", {"cond": ["column", "==", 1]}, ["offset", "length"], 4], ["loc", "iadd", {"cond": ["bpm", ">=", 0]}, "bpm", {"np": "int64", "v": 3}]]
         masks = [{"bits": list(b)} for b in itertools.product([0, 1], repeat=nrows)] if nrows <= 4 else []
         masks += [{"cond": ["offset", ">", 400.0]}, {"cond": ["column", "==", 1]}, {"cond": ["length", ">", 0]}, {"cond": ["bpm", ">=", 0]}]
+        # thresholds that rows of the charts sit on exactly (offsets 500 and 400, length 0)
+        masks += [{"cond": ["offset", ">=", 500.0]}, {"cond": ["offset", "<", 500.0]}]
         for mk in masks:
             for cols, v in (("offset", 777.0), ("column", 3), ("length", 50.0), ("bpm", 90.0), (["offset", "column"], 2), (["offset", "length"], 7.0)):
                 ops.append(["loc", "set", mk, cols, v])
@@ -748,12 +816,25 @@ def _alphabet(game, nrows, full):
         ops += [["loc", "set", half, "offset", 777.0], ["loc", "iadd", first, ["offset", "column"], 2], ["loc", "iadd", {"cond": ["column", "==", 1]}, "offset", 10.0],
                 ["loc", "set", {"cond": ["offset", ">", 400.0]}, ["offset", "length"], 7.0]]
     ops += [["restack"], ["restack", ["HitList"]], ["restack", ["HitList", "HoldList"]], ["restack", ["BpmList"]]]
+    if full:
+        ops += _more_restacks(game)
     return ops
+
+
+def _more_restacks(game):
+    """further type restrictions: the common note base class, a one-element tuple of the exact class of one of the chart's
+    lists ("list:<name>"), game specific list classes"""
+    out = [["restack", ["NoteList"]], ["restack", ["NoteList", "BpmList"]], ["restack", ["list:hits"]], ["restack", ["list:bpms", "HoldList"]]]
+    if game in ("osu", "qua"):
+        out += [["restack", ["list:svs"]], ["restack", ["list:svs", "HitList"]]]
+    if game == "sm":
+        out += [["restack", ["list:stops"]], ["restack", ["list:mines", "list:rolls"]], ["restack", ["list:fakes", "BpmList"]]]
+    return out
 
 
 def _c12_specs(game):
     """(label, spec, number of stacked rows): <= 4 stacked rows so that all 2^n masks are enumerated, plus empty-list and
-    non-default-label variants, plus one larger chart"""
+    non-default-label variants, plus larger charts.  The charts of _c12_more_specs follow the original ones."""
     sv = dict(svs=[(250, 1.5)]) if game in ("osu", "qua") else {}
     out = []
     out.append(("small", std_spec(game, hits=[(0, 0), (500, 1)], holds=[(1000, 1, 250)], bpms=[(0, 120)]), 4))
@@ -769,6 +850,34 @@ def _c12_specs(game):
     big = std_spec(game, hits=[(i * 250, i % 4) for i in range(6)], holds=[(2000 + i * 500, (i + 1) % 4, 250) for i in range(3)], bpms=[(0, 120), (1000, 180), (3000, 90)],
                    labels=dict(hits="mask", bpms="gappy"), **({"svs": [(0, 1.0), (1250, 0.5)]} if sv else {}))
     out.append(("larger", big, 12 + (2 if sv else 0)))
+    return out + _c12_more_specs(game)
+
+
+NEW_SPECS = ("empty_bpms", "unsorted_perm", "ties_rev", "negative_large", "int_columns", "sv_ties_unsorted", "sv_only", "sm_all_lists", "one_row")
+
+
+def _c12_more_specs(game):
+    """Charts added for the input dimensions the first nine lacked: an empty tempo list on its own, rows NOT in time order,
+    permuted / reversed / sorted()-made labels on every list kind (notes, tempo, SV, stops), two notes / two tempo changes /
+    two SVs at the same time with different values, a zero-length hold sitting exactly on a mask threshold, negative and very
+    large times with sub-millisecond fractions, integer-typed offset / length columns, every list kind of StepMania
+    non-empty, osu samples (a list the stack does not hold) non-empty, a single-row chart."""
+    sv = game in ("osu", "qua")
+    out = []
+    out.append(("empty_bpms", std_spec(game, hits=[(0, 0), (500, 1)], holds=[(400, 1, 250), (1000, 2, 0)], bpms=[], labels=dict(hits="perm")), 4))
+    out.append(("unsorted_perm", std_spec(game, hits=[(1000, 1), (0, 0)], holds=[(400, 1, 0)], bpms=[(0, 120)], labels=dict(hits="perm", holds="rev", bpms="perm")), 4))
+    out.append(("ties_rev", std_spec(game, hits=[(500, 0), (500, 1)], holds=[], bpms=[(0, 120), (0, 60, 3)], labels=dict(hits="rev", bpms="rev")), 4))
+    more = dict(samples=[(100, "s.wav", 50), (-5, "t.wav", 70)]) if game == "osu" else {}
+    out.append(("negative_large", std_spec(game, hits=[(-250.5, 0), (1000000000.25, 1)], holds=[(400, 1, 0)], bpms=[(-1000.125, 120)], labels=dict(hits="sorted"), **more), 4))
+    out.append(("int_columns", std_spec(game, hits=[(500, 1), (0, 0)], holds=[(1000, 1, 250)], bpms=[(0, 120)], labels=dict(hits="int", holds="int", bpms="int")), 4))
+    if sv:
+        out.append(("sv_ties_unsorted", std_spec(game, hits=[(0, 0)], holds=[], bpms=[(0, 120)], svs=[(500, 2.0), (250, 0.5), (500, 0.75)], labels=dict(svs="perm")), 5))
+        out.append(("sv_only", std_spec(game, hits=[], holds=[], bpms=[], svs=[(500, 2.0), (0, 0.5)], labels=dict(svs="sorted")), 2))
+    if game == "sm":
+        out.append(("sm_all_lists", std_spec(game, hits=[(0, 0)], holds=[(250, 1, 100)], bpms=[(0, 120)], stops=[(500, 250), (400, 10)], fakes=[(600, 2)], lifts=[(700, 3)],
+                                            mines=[(750, 1), (750, 2)], rolls=[(800, 0, 0)], keysounds=[(900, 1)],
+                                            labels=dict(stops="perm", mines="rev", rolls="gappy", fakes="after", lifts="mask", keysounds="gappy")), 11))
+    out.append(("one_row", std_spec(game, hits=[(500, 1)], holds=[], bpms=[]), 1))
     return out
 
 
@@ -780,17 +889,43 @@ def _c12_game(rep, game):
     sizes = {}
     stopped = [False]
 
-    def run(spec, ops, check_all=False):
+    def run(spec, ops, check_all=False, twin=False):
         if stopped[0] or rep.out_of_time(38, 330):
             stopped[0] = True
             return
         case = dict(spec=spec, ops=ops)
+        if twin:
+            case["twin"] = True
         rep.case(case, nontrivial=any(o[0] != "restack" for o in ops))
         n_seq[0] += 1
         # prefixes are cases of their own, so an enumerated sequence is compared after its last op only
         for what, d in _run_chart_case(case, check_from=0 if check_all else len(ops) - 1):
             rep.fail(what, case, d)
 
+    # phase 0 (breadth first, so that a time cut never leaves a chart unvisited): on EVERY chart the single ops of the reduced
+    # alphabet, every further type restriction followed by assignments, some single ops and sequences of the complete alphabet
+    # (half of the sequences with a second chart + stacker alive)
+    alph = {label: (_alphabet(game, nrows, True), _alphabet(game, nrows, False)) for label, spec, nrows in specs}
+    for label, spec, nrows in specs:  # pass 1: the reduced alphabet, one op at a time
+        for op in alph[label][1]:
+            run(spec, [op])
+    for label, spec, nrows in specs:  # pass 2: a first draw from the complete alphabet
+        full = alph[label][0]
+        for op in rng.sample(full, min(3, len(full))):
+            run(spec, [op])
+        for i in range(2):
+            run(spec, [rng.choice(full) for _ in range(3)], check_all=True, twin=(i == 0))
+    for label, spec, nrows in specs:  # pass 3: the further type restrictions, a second draw
+        full, red = alph[label]
+        assign = [o for o in red if o[0] != "restack"]
+        for r in _more_restacks(game):
+            for op in rng.sample(assign, 3):
+                run(spec, [r, op])
+        for op in rng.sample(full, min(3, len(full))):
+            run(spec, [op])
+        for i in range(2):
+            run(spec, [rng.choice(full) for _ in range(3)], check_all=True, twin=(i == 0))
+    n_phase0 = n_seq[0]
     # phase A: every single op of the complete alphabet on every chart
     for label, spec, nrows in specs:
         full = _alphabet(game, nrows, True)
@@ -808,26 +943,34 @@ def _c12_game(rep, game):
             run(spec, list(p3))
     # phase C: all sequences of length 2 over the reduced alphabet on every small chart
     for label, spec, nrows in specs:
-        if nrows > 4 or (quick and label in ("gappy", "empty_holds", "all_empty")):
+        if nrows > 4 or (quick and label in ("gappy", "empty_holds", "all_empty", "int_columns", "one_row", "sv_only")):
             continue
         red = _alphabet(game, nrows, False)
         for p2 in itertools.product(red, repeat=2):
             run(spec, list(p2))
-    # phase D: random sequences of length 3 over the complete alphabet, compared after every op
+    # phase D: random sequences of length 3 over the complete alphabet, compared after every op (every 4th with a twin chart)
     for label, spec, nrows in specs:
         full = _alphabet(game, nrows, True)
-        for _ in range(rep.n(25, 1500)):
-            run(spec, [rng.choice(full) for _ in range(3)], check_all=True)
+        for i in range(rep.n(25, 1500)):
+            run(spec, [rng.choice(full) for _ in range(3)], check_all=True, twin=(i % 4 == 3))
     rep.extra["alphabet_sizes"] = sizes
     rep.extra["sequences"] = n_seq[0]
+    rep.extra["sequences_breadth_first_phase"] = n_phase0
+    rep.extra["charts"] = [x[0] for x in specs]
     rep.extra["stopped_by_time_budget"] = stopped[0]
     rep.extra["condition_masks_differing_between_stack_view_and_lists"] = PHANTOM[0]
-    rep.bound = (f"{game}: {len(specs)} charts (<= 4 stacked rows incl. empty lists, gappy / filtered labels; one larger chart); every single op of the complete alphabet "
-                 f"(whole-column += *= self-assign on offset/column/bpm/length/metronome, loc[mask, col(s)] = / += with ALL 2^n positional masks and 4 condition masks on 4 single and 2 double "
-                 f"column choices, re-stack, 3 type-restricted stacks, game specific props); ALL length-3 sequences over a reduced alphabet "
-                 f"({'10 ops, filtered-label chart' if quick else '13 ops, every small chart'}); ALL length-2 sequences over the 13-op reduced alphabet on {'4-5 of the' if quick else 'all'} small charts; "
-                 f"{rep.n(25, 1500)} random length-3 sequences per chart over the complete alphabet")
-    rep.rule = "a case is (chart, op sequence), compared list by list with the per-list oracle after the last op; non-trivial when it contains an assignment"
+    rep.bound = (f"{game}: {len(specs)} charts (<= 4 stacked rows incl. empty lists, gappy / filtered labels; one larger chart; added: empty tempo list alone, rows not in time order, "
+                 f"permuted / reversed / sorted()-made labels on notes, tempo, SV and stop lists, ties (two notes / tempo changes / SVs at one time), zero-length hold on a mask threshold, "
+                 f"negative / 1e9 / fractional times, integer-typed offset and length columns, every StepMania list kind filled, osu samples filled, single row); "
+                 f"breadth first on every chart: reduced-alphabet single ops, {len(_more_restacks(game))} further type restrictions (NoteList, exact list classes) x 3 assignments, 6 + 4 random complete-alphabet ops / "
+                 f"length-3 sequences (half with a second equal chart and its stacker alive); then every single op of the complete alphabet "
+                 f"(whole-column += -= *= /= self-assign and plain assignment of one value on offset/column/bpm/length/metronome, python and numpy scalar values, loc[mask, col(s)] = / += with ALL 2^n positional masks and 6 condition masks "
+                 f"(two with rows exactly on the threshold) on 4 single and 2 double "
+                 f"column choices, re-stack, type-restricted stacks, game specific props); ALL length-3 sequences over a reduced alphabet "
+                 f"({'10 ops, filtered-label chart' if quick else '13 ops, every small chart'}); ALL length-2 sequences over the 13-op reduced alphabet on {'most of the' if quick else 'all'} small charts; "
+                 f"{rep.n(25, 1500)} random length-3 sequences per chart over the complete alphabet (every 4th with a twin chart)")
+    rep.rule = ("a case is (chart, op sequence[, twin]), compared list by list with the per-list oracle after the last op; non-trivial when it contains an assignment; "
+                "twin cases also demand that a second equal chart is unchanged and then behaves the same through its own earlier-made stacker")
 
 
 def _mk_game_check(game):
@@ -855,15 +998,24 @@ for _g in GAMES:
 
 
 # ---------------------------------------------------------------------------------------------------------------- mapset stack
-def _run_mapset_case(case, check_from=0):
-    """case: dict(spec=mapset spec, ops=[whole-column ops / restack])"""
-    ms = _fresh(case["spec"])
+def _set_fields(ms):
+    """the mapset's own dataclass fields (not the charts)"""
+    out = {}
+    if dataclasses.is_dataclass(ms):
+        for f in dataclasses.fields(ms):
+            if f.name != "maps":
+                out[f.name] = _field_value(getattr(ms, f.name))
+    return out
+
+
+def _run_mapset_ops(ms, ops, check_from=0, s=None):
     models = [_Model(m) for m in ms.maps]
     fields0 = [_fields_of(m) for m in ms.maps]
-    set0 = snapshot(ms)["fields"]
-    s = ms.stack()
+    set0 = _set_fields(ms)
+    if s is None:
+        s = ms.stack()
     out = []
-    for k, op in enumerate(case["ops"]):
+    for k, op in enumerate(ops):
         if op[0] == "restack":
             s = ms.stack()
             for md in models:
@@ -882,11 +1034,15 @@ def _run_mapset_case(case, check_from=0):
                     cur = getattr(s, col)
                     if op[0] == "iadd":
                         cur += v
+                    elif op[0] == "isub":
+                        cur -= v
+                    elif op[0] == "idiv":
+                        cur /= v
                     else:
                         cur *= v
                     setattr(s, col, cur)
                     for md in models:
-                        md.whole(op[0], col, v)
+                        md.whole(op[0], col, _plain(v))
             except Exception as ex:
                 return out + [("stack_op_raises", f"op {k} {op}: {type(ex).__name__}: {ex}")]
         if k >= check_from:
@@ -896,10 +1052,28 @@ def _run_mapset_case(case, check_from=0):
                     return out + [(wh, f"after op {k} {op}: chart {i}: {d}") for wh, d in bad]
             if len(ms.maps) != len(models):
                 return out + [("list_length", f"after op {k} {op}: number of charts {len(models)} -> {len(ms.maps)}")]
-            d = diff(set0, snapshot(ms)["fields"])
+            d = diff(set0, _set_fields(ms))
             if d:
                 return out + [("chart_fields_untouched", f"after op {k} {op}: mapset fields: {'; '.join(d[:3])}")]
     return out
+
+
+def _run_mapset_case(case, check_from=0):
+    """case: dict(spec=mapset spec, ops=[whole-column ops / restack], twin=bool); twin as in _run_chart_case: a second equal
+    mapset and its stacker are alive while the first one is edited."""
+    ms = _fresh(case["spec"])
+    if not case.get("twin"):
+        return _run_mapset_ops(ms, case["ops"], check_from)
+    ms2 = _fresh(case["spec"])
+    s2 = ms2.stack()
+    before = snapshot(ms2)
+    out = _run_mapset_ops(ms, case["ops"], check_from)
+    if out:
+        return out
+    d = diff(before, snapshot(ms2))
+    if d:
+        return [("other_chart_untouched", "a second mapset (own objects, equal content) changed while the first one was edited through its stack: " + "; ".join(d[:3]))]
+    return [(wh, "second mapset, stacked before the first one was edited: " + dd) for wh, dd in _run_mapset_ops(ms2, case["ops"], check_from, s=s2)]
 
 
 def _mapset_specs(game):
@@ -909,6 +1083,22 @@ def _mapset_specs(game):
     e = std_spec(game, hits=[], holds=[], bpms=[])
     out = [("one", dict(game=game, maps=[a])), ("two_ragged", dict(game=game, maps=[a, b])), ("three", dict(game=game, maps=[c, a, b])), ("equal_charts", dict(game=game, maps=[a, a])),
            ("with_empty_chart", dict(game=game, maps=[a, e])), ("no_charts", dict(game=game, maps=[]))]
+    # added: a chart that lacks one kind of object (or every object) at EVERY position of the set, not only at the end; rows not in
+    # time order / permuted, reversed, sorted()-made labels / ties / integer columns on notes AND tempo lists; SV lists; five charts
+    nh = std_spec(game, hits=[], holds=[(50, 2, 0), (50, 3, 75.5)], bpms=[(0, 90), (0, 45, 3)], labels=dict(holds="rev", bpms="perm"))      # no hits; ties; zero-length hold
+    nb = std_spec(game, hits=[(300, 1), (-200.25, 0)], holds=[(1000000000.5, 1, 10)], bpms=[], labels=dict(hits="sorted"))                    # no tempo rows; unsorted, negative, large
+    ic = std_spec(game, hits=[(700, 3), (100, 2)], holds=[(200, 0, 100)], bpms=[(50, 200)], labels=dict(hits="int", holds="int", bpms="int"))  # integer-typed columns, rows not in time order
+    out += [("empty_chart_middle", dict(game=game, maps=[a, e, c])), ("empty_chart_first", dict(game=game, maps=[e, b, a])),
+            ("no_holds_middle", dict(game=game, maps=[a, b, c])), ("no_holds_first", dict(game=game, maps=[b, c])),
+            ("no_hits_middle", dict(game=game, maps=[c, nh, a])), ("no_bpms_middle", dict(game=game, maps=[a, nb, ic])),
+            ("five_mixed", dict(game=game, maps=[a, b, nh, e, ic])), ("only_empty_charts", dict(game=game, maps=[e, e]))]
+    if game in ("osu", "qua"):
+        sa = std_spec(game, hits=[(0, 0)], holds=[], bpms=[(0, 120)], svs=[(500, 2.0), (250, 0.5), (500, 0.75)], labels=dict(svs="perm"))
+        out += [("with_svs", dict(game=game, maps=[sa, a, b]))]
+    if game == "sm":
+        sl = std_spec(game, hits=[(0, 0)], holds=[], bpms=[(0, 120)], stops=[(500, 250), (400, 10)], fakes=[(600, 2)], lifts=[(700, 3)], mines=[(750, 1), (750, 2)],
+                      rolls=[(800, 0, 30)], keysounds=[(900, 1)], labels=dict(stops="perm", mines="rev", rolls="gappy"))
+        out += [("sm_all_lists", dict(game=game, maps=[a, sl, b]))]
     return out
 
 
@@ -917,6 +1107,10 @@ def _mapset_alphabet():
     for c in ["offset", "column", "bpm", "length", "metronome"]:
         ops += [["iadd", c, 5], ["imul", c, 2], ["iadd", c, 0.5], ["self", c]]
     ops += [["restack"]]
+    # added: the other two in-place operators, numpy scalars as values
+    for c in ["offset", "length", "bpm"]:
+        ops += [["isub", c, 5], ["idiv", c, 2]]
+    ops += [["iadd", "offset", {"np": "float64", "v": 2.5}], ["imul", "column", {"np": "int64", "v": 2}], ["isub", "length", {"np": "float32", "v": 1.5}]]
     return ops
 
 
@@ -924,30 +1118,57 @@ def _c12_mapset_game(rep, game):
     rng = rep.rng
     ops = _mapset_alphabet()
     red = [["iadd", "offset", 5], ["imul", "offset", 2], ["iadd", "column", 1], ["imul", "bpm", 2], ["iadd", "length", 0.5], ["self", "offset"], ["restack"]]
-    stopped = False
-    n = 0
-    for label, spec in _mapset_specs(game):
-        if label == "no_charts":
-            seqs = [[op] for op in ops[:4]] + [[["restack"]]]
-        else:
-            seqs = [[op] for op in ops] + [list(p) for p in itertools.product(red, repeat=2)]
-            if rep.tier != "quick" or label in ("two_ragged", "with_empty_chart"):
-                seqs += [list(p) for p in itertools.product(red, repeat=3)]
-            seqs += [[rng.choice(ops) for _ in range(3)] for _ in range(rep.n(10, 300))]
-        for sq in seqs:
-            if rep.out_of_time(38, 300):
-                stopped = True
-                break
-            case = dict(spec=spec, ops=sq)
-            rep.case(case, nontrivial=any(o[0] != "restack" for o in sq) and len(spec["maps"]) > 0)
-            n += 1
-            for what, d in _run_mapset_case(case, check_from=len(sq) - 1):
-                rep.fail(what, case, d)
-    rep.extra["stopped_by_time_budget"] = stopped
-    rep.bound = (f"{game}: 6 mapsets (1-3 charts of different sizes, two equal charts, an all-empty chart, no chart; gappy / filtered labels): every single whole-column op "
-                 f"(+=, *=, self-assign on offset/column/bpm/length/metronome; re-stack), all length-2 sequences over a 7-op alphabet, all length-3 sequences "
-                 f"{'on the ragged two-chart mapset and the one with an empty chart' if rep.tier == 'quick' else 'on every mapset'}, {rep.n(10, 300)} random length-3 sequences per mapset; {n} sequences")
-    rep.rule = "a case is (mapset, op sequence); compared per chart and per list with the per-list oracle; non-trivial when it contains an assignment on a non-empty mapset"
+    core = [["iadd", "offset", 5], ["imul", "length", 2], ["iadd", "column", 1], ["imul", "bpm", 2], ["idiv", "offset", 2], ["iadd", "metronome", 0.5]]
+    specs = _mapset_specs(game)
+    st = dict(stopped=False, n=0)
+
+    def run(spec, sq, twin=False):
+        if st["stopped"] or rep.out_of_time(38, 300):
+            st["stopped"] = True
+            return
+        case = dict(spec=spec, ops=sq)
+        if twin:
+            case["twin"] = True
+        rep.case(case, nontrivial=any(o[0] != "restack" for o in sq) and len(spec["maps"]) > 0)
+        st["n"] += 1
+        for what, d in _run_mapset_case(case, check_from=len(sq) - 1):
+            rep.fail(what, case, d)
+
+    # breadth first, so that a time cut never leaves a mapset unvisited: (0) one op on each stacked property + two sequences on every
+    # mapset, (1) every single op, (2) random sequences, (3) all pairs, (4) all triples
+    for label, spec in specs:
+        for op in (core[:4] if label == "no_charts" else core):
+            run(spec, [op])
+        if label != "no_charts":
+            run(spec, [["iadd", "length", 5], ["imul", "offset", 2], ["iadd", "column", 1]], twin=True)
+            run(spec, [["imul", "bpm", 2], ["restack"], ["isub", "offset", 5]])
+    n0 = st["n"]
+    for label, spec in specs:
+        for op in (ops[:4] + [["restack"]] if label == "no_charts" else ops):
+            run(spec, [op])
+    for label, spec in specs:
+        if label != "no_charts":
+            for i in range(rep.n(10, 300)):
+                run(spec, [rng.choice(ops) for _ in range(3)], twin=(i % 3 == 2))
+    for label, spec in specs:
+        if label != "no_charts":
+            for p in itertools.product(red, repeat=2):
+                run(spec, list(p))
+    for label, spec in specs:
+        if label != "no_charts" and (rep.tier != "quick" or label in ("two_ragged", "with_empty_chart", "empty_chart_middle", "no_holds_middle")):
+            for p in itertools.product(red, repeat=3):
+                run(spec, list(p))
+    rep.extra["stopped_by_time_budget"] = st["stopped"]
+    rep.extra["mapsets"] = [x[0] for x in specs]
+    rep.extra["sequences_breadth_first_phase"] = n0
+    rep.bound = (f"{game}: {len(specs)} mapsets (1-5 charts of different sizes, two equal charts, no chart; an all-empty chart and a chart without holds / hits / tempo rows at the FIRST, a MIDDLE and the last "
+                 f"position, only empty charts; gappy / filtered / permuted / reversed / sorted()-made labels and rows not in time order on notes and tempo lists, ties, zero-length holds, negative / 1e9 / fractional "
+                 f"times, integer-typed columns, SV lists (osu, quaver), every StepMania list kind): breadth first 6 ops + 2 sequences on every mapset (one with a second equal mapset and its stacker alive), "
+                 f"then every single whole-column op (+=, -=, *=, /=, self-assign on offset/column/bpm/length/metronome, python and numpy scalar values; re-stack), {rep.n(10, 300)} random length-3 sequences per mapset "
+                 f"(every 3rd with a twin), all length-2 sequences over a 7-op alphabet, all length-3 sequences "
+                 f"{'on 4 mapsets (ragged, with an empty chart last / in the middle, without holds in the middle)' if rep.tier == 'quick' else 'on every mapset'}; {st['n']} sequences")
+    rep.rule = ("a case is (mapset, op sequence[, twin]); compared per chart and per list with the per-list oracle; non-trivial when it contains an assignment on a non-empty mapset; "
+                "twin cases also demand that a second equal mapset is unchanged and then behaves the same through its own earlier-made stacker")
 
 
 def _mk_mapset_check(game):
